@@ -561,7 +561,7 @@ async fn run_case(c: &Value, progress: Arc<AtomicUsize>) -> Value {
 
 fn main() {
     quiet_panics();
-    let watchdog_s: u64 = std::env::var("RUNLOOP_WATCHDOG_S").ok().and_then(|s| s.parse().ok()).unwrap_or(15);
+    let watchdog_s: u64 = std::env::var("RUNLOOP_WATCHDOG_S").ok().and_then(|s| s.parse().ok()).unwrap_or(60);
     for c in read_cases() {
         // each case on its own thread + runtime, so that a hang is reported and skipped
         let (tx, rx) = std::sync::mpsc::channel();
